@@ -1,5 +1,6 @@
 import Ovsdb.Codec
 import Ovsdb.Model.Cache
+import Ovsdb.Model.Cond
 namespace Ovsdb
 open Lean
 
@@ -44,5 +45,19 @@ def cacheToJson (c : Cache) : Json :=
   Json.mkObj [("ixs", listToJson (fun ix => indexToJson (liveIndex ix)) c.ixs),
               ("rows", listToJson (fun u => .arr #[.str u, optToJson rowToJson (AMap.get? c.rows u)])
                  ((AMap.keys c.rows).eraseDups))]
+
+end Ovsdb
+
+namespace Ovsdb
+open Lean
+
+def condFnOfString : String → P CondFn
+  | "<" => pure .lt | "<=" => pure .le | "==" => pure .eq | "!=" => pure .ne
+  | ">" => pure .gt | ">=" => pure .ge | "includes" => pure .includes | "excludes" => pure .excludes
+  | s => throw s!"bad condition function {s}"
+
+def condOfJson (j : Json) : P Cond := do
+  return { col := ← jStr (← jField j "col"), fn := ← condFnOfString (← jStr (← jField j "fn")),
+           val := ← valueOfJson (← jField j "val") }
 
 end Ovsdb
